@@ -58,12 +58,12 @@ theorem C13_burn_amounts (slash : Int) (h : 0 ≤ slash) :
   rw [hb, hh]
   refine ⟨rfl, rfl, ?_, ?_⟩ <;> omega
 
-/-- **C13 (execution conserves the escrow).** What execution burns, returns to the reporter's side and sets aside for fee payers
-(refund pot, and the reporter's bond when the dispute is supported) and voters adds up to the fees plus the escrowed stake
-(2·slash), except for the odd loya of the burn amount when somebody voted. -/
-theorem C13_execute_conserves (slash burn : Int) (anyVoter : Bool) (o : Outcome) :
-    let e := execute slash burn anyVoter o
-    e.burned + e.toReporter + e.payerPot + e.bondPot + e.voterReward + (if anyVoter then burn - 2 * halfBurn burn else 0) = 2 * slash := by
+/-- **C13 (execution conserves the escrow, for any number of rounds).** What execution burns, returns to the reporter's side and
+sets aside for fee payers (refund pot, and the reporter's bond when the dispute is supported) and voters adds up to the fees of all
+rounds plus the escrowed stake (2·slash + roundFees), except for the odd loya of the burn amount when somebody voted. -/
+theorem C13_execute_conserves (slash burn roundFees : Int) (anyVoter : Bool) (o : Outcome) :
+    let e := execute slash burn anyVoter o roundFees
+    e.burned + e.toReporter + e.payerPot + e.bondPot + e.voterReward + (if anyVoter then burn - 2 * halfBurn burn else 0) = 2 * slash + roundFees := by
   cases o <;> cases anyVoter <;> simp [execute] <;> omega
 
 /-- `fee·pot·10^6 / feeTotal` computed through LegacyDec is the integer quotient -/
